@@ -9,6 +9,7 @@ import (
 
 // result of one call of the real code
 type result struct {
+	ret string // the string exactly as returned (shares memory with whatever the library returned)
 	val []byte
 	ok  bool
 	err error
@@ -19,7 +20,10 @@ var callTimeout = 5 * time.Second
 var workLimit = 64 // HMAC constructions after which a call is aborted (hook mode only)
 
 // invoke runs fn under recover with a watchdog and fills the reply part of the event.
-func invoke(e *Event, fn func() result) {
+func invoke(e *Event, fn func() result) { invokeOn(e, nil, nil, fn) }
+
+// invokeOn additionally runs before/after on the goroutine that executes the call.
+func invokeOn(e *Event, before, after func(), fn func() result) {
 	type out struct {
 		r     result
 		panic any
@@ -39,6 +43,12 @@ func invoke(e *Event, fn func() result) {
 			}
 			ch <- o
 		}()
+		if before != nil {
+			before()
+		}
+		if after != nil {
+			defer after()
+		}
 		o.r = fn()
 	}()
 	var o out
@@ -63,6 +73,7 @@ func invoke(e *Event, fn func() result) {
 		if o.r.val != nil {
 			e.Val = B(o.r.val)
 		}
+		e.ret = o.r.ret
 		if o.r.y != nil {
 			e.Y = o.r.y
 		}
@@ -146,7 +157,7 @@ func doGenerateHOTP(scn, secret string, ctr uint64, p P) Event {
 	e.Orc = o.entries()
 	invoke(&e, func() result {
 		s, err := otp.GenerateHOTP(secret, ctr, p.ptr())
-		return result{val: []byte(s), err: err}
+		return result{val: []byte(s), err: err, ret: s}
 	})
 	return e
 }
@@ -189,7 +200,7 @@ func doGenerateTOTP(scn, secret string, t time.Time, p P) Event {
 	e.R = map[string]any{"nsec": t.Nanosecond(), "zone": t.Location().String()}
 	invoke(&e, func() result {
 		s, err := otp.GenerateTOTP(secret, t, p.ptr())
-		return result{val: []byte(s), err: err}
+		return result{val: []byte(s), err: err, ret: s}
 	})
 	return e
 }
